@@ -24,6 +24,7 @@ from kmip.core import primitives, utils as cutils, secrets as csecrets  # noqa: 
 from kmip.core.factories import attributes as attr_factory_mod  # noqa: E402
 from kmip.core.messages import contents, messages, payloads  # noqa: E402
 from kmip.core import policy as core_policy  # noqa: E402
+from kmip.core import misc  # noqa: E402
 from kmip.pie import objects as pobjects, factory as pfactory  # noqa: E402
 from kmip.services.server import engine as engine_mod  # noqa: E402
 from kmip.services.server import session as session_mod  # noqa: E402
